@@ -388,6 +388,12 @@ REG_POOL = {
     "client_name": ["C", "", None, 5],
     "software_id": ["s", None],
     "unregistered_member": ["kept?", 5],
+    # RFC 7591 §2.2: human-readable members may be repeated with a language tag; whatever the server stores of them obeys the URI rule too
+    "tos_uri#fr": URI_POOL[:6],
+    "logo_uri#ja-Jpan-JP": URI_POOL[:6] + [5],
+    "client_uri#de": URI_POOL[:6],
+    "policy_uri#es": URI_POOL[:4],
+    "client_name#fr": ["Nom", 5],
 }
 DROPK = "__drop__"
 
@@ -549,7 +555,7 @@ def registration_oracle(c, out, bad):
                 bad(f"an update {why} was accepted", kind="update-wrongly-accepted", why=why.split(" ")[0] + " " + why.split(" ")[1])
     for cid, md in out["raw_store"].items():
         sm = sm_of.get(cid, c["sm"])          # the metadata in force when this client was last written
-        for k in ("client_uri", "logo_uri", "tos_uri", "policy_uri", "jwks_uri"):
+        for k in [m for m in md if isinstance(m, str) and m.split("#", 1)[0] in ("client_uri", "logo_uri", "tos_uri", "policy_uri", "jwks_uri")]:
             v = md.get(k)
             if v and not _abs_uri(v):
                 bad(f"stored {k} = {v!r} is not an absolute, fragment-free URI", kind="stored-bad-uri", member=k)
